@@ -1330,4 +1330,323 @@ theorem xorSpec {B : String → Prop} : ∀ as : List BExp, XorSpec B as
   | .imp x y :: as => xorSpec_cons (exprSpec (.imp x y)) (exprSpec (.imp x y)) (xorSpec as)
 end
 
+/-! ### uncompute, remove_identities, uncompute_all -/
+
+theorem Step.mono {B B' : String → Prop} {s s' : CState} (h : Step B s s') (hb : ∀ x, B x → B' x) :
+    Step B' s s' :=
+  ⟨h.good, h.nq_le, h.inputs_eq, h.keys_keep, fun x hx hr => h.qmap_keep x (fun hbx => hx (hb x hbx)) hr⟩
+
+theorem uncomputeLoop_ok {B : String → Prop} {marked : List Nat} :
+    ∀ (gs : List AGate) (unc : List Nat) (keepRev : List AGate) {r : List Nat × List AGate} {s s' : CState},
+    (uncomputeLoop marked gs unc keepRev).run s = .ok (r, s') → Good s →
+    (∀ g ∈ gs, GateOK s.qc.numQubits g) →
+    Step B s s' ∧ ∀ g ∈ r.2, g ∈ keepRev ∨ g ∈ gs
+  | [], unc, keepRev, r, s, s', h, hg, _ => by
+    unfold uncomputeLoop at h
+    obtain ⟨rfl, rfl⟩ := run_pure_ok.mp h
+    exact ⟨Step.refl hg, fun g hg' => Or.inl hg'⟩
+  | g :: gs, unc, keepRev, r, s, s', h, hg, hgs => by
+    unfold uncomputeLoop at h
+    dsimp only at h
+    rcases run_ite_ok.mp h with ⟨_, h⟩ | ⟨_, h⟩
+    · obtain ⟨b, s1, happ, h1⟩ := run_bind_ok.mp h
+      have hgok := hgs g List.mem_cons_self
+      have st1 : Step B s s1 := (appendG_run happ).step hg hgok.1 hgok.2.2.1
+      have rest : ∀ {s2 : CState}, Step B s s2 →
+          (uncomputeLoop marked gs (setIns unc g.target) keepRev).run s2 = .ok (r, s') →
+          Step B s s' ∧ ∀ g' ∈ r.2, g' ∈ keepRev ∨ g' ∈ g :: gs := by
+        intro s2 st2 h2
+        obtain ⟨st3, hsub⟩ := uncomputeLoop_ok gs _ _ h2 st2.good
+          (fun g' hg' => (hgs g' (List.mem_cons_of_mem _ hg')).mono st2.nq_le)
+        refine ⟨st2.trans st3, fun g' hg' => ?_⟩
+        rcases hsub g' hg' with h' | h'
+        · exact Or.inl h'
+        · exact Or.inr (List.mem_cons_of_mem _ h')
+      rcases run_ite_ok.mp h1 with ⟨_, h1⟩ | ⟨_, h1⟩
+      · obtain ⟨u, s2, hev, h2⟩ := run_bind_ok.mp h1
+        exact rest (st1.trans (event_ok hev st1.good)) h2
+      · exact rest st1 h1
+    · obtain ⟨st3, hsub⟩ := uncomputeLoop_ok gs _ _ h hg
+        (fun g' hg' => hgs g' (List.mem_cons_of_mem _ hg'))
+      refine ⟨st3, fun g' hg' => ?_⟩
+      rcases hsub g' hg' with h' | h'
+      · simp only [List.mem_append, List.mem_singleton] at h'
+        rcases h' with h' | rfl
+        · exact Or.inl h'
+        · exact Or.inr List.mem_cons_self
+      · exact Or.inr (List.mem_cons_of_mem _ h')
+
+theorem mem_foldl_setIns {l f : List Nat} {x : Nat} (h : x ∈ l.foldl setIns f) : x ∈ f ∨ x ∈ l := by
+  induction l generalizing f with
+  | nil => exact Or.inl h
+  | cons a l ih =>
+    rcases ih h with h' | h'
+    · rcases mem_setIns h' with h'' | rfl
+      · exact Or.inl h''
+      · exact Or.inr List.mem_cons_self
+    · exact Or.inr (List.mem_cons_of_mem _ h')
+
+theorem uncompute_ok {B : String → Prop} {r : List Nat} {s s' : CState}
+    (h : uncompute.run s = .ok (r, s')) (hg : Good s) : Step B s s' := by
+  unfold uncompute at h
+  obtain ⟨qc, s1, hq, h1⟩ := run_bind_ok.mp h
+  obtain ⟨rfl, rfl⟩ := getQC_run hq
+  rcases run_ite_ok.mp h1 with ⟨_, h1⟩ | ⟨_, h1⟩
+  · obtain ⟨_, rfl⟩ := run_pure_ok.mp h1; exact Step.refl hg
+  · obtain ⟨x, s2, hloop, h2⟩ := run_bind_ok.mp h1
+    obtain ⟨st1, hsub⟩ := uncomputeLoop_ok (B := B) _ _ _ hloop hg
+      (fun g hg' => hg.comp_ok g (by simpa using hg'))
+    obtain ⟨unc, keepRev⟩ := x
+    dsimp only at h2
+    obtain ⟨u, s3, hm, h3⟩ := run_bind_ok.mp h2
+    obtain ⟨rfl, rfl⟩ := run_pure_ok.mp h3
+    have := modQC_run hm; subst this
+    have hg2 := st1.good
+    refine st1.trans (Step.of_same ⟨hg2.gates_ok, ?_, hg2.qmap_lt, hg2.expq_lt, hg2.anc_lt, ?_, ?_,
+      hg2.anc_nodup, hg2.anc_named⟩ rfl rfl rfl)
+    · intro g hg'
+      have hg'' : g ∈ keepRev := by simpa using hg'
+      rcases hsub g hg'' with h' | h'
+      · cases h'
+      · exact (hg.comp_ok g (by simpa using h')).mono st1.nq_le
+    · intro x hx
+      rcases mem_foldl_setIns hx with h' | h'
+      · exact hg2.free_lt x h'
+      · exact Nat.lt_of_lt_of_le (hg.marked_lt x h') st1.nq_le
+    · intro x hx
+      exact Nat.lt_of_lt_of_le (hg.marked_lt x (List.mem_filter.mp hx).1) st1.nq_le
+
+theorem mem_popBarrier {res : List AGate} {g : AGate} (h : g ∈ popBarrier res) : g ∈ res := by
+  unfold popBarrier at h
+  split at h
+  · exact h
+  · split at h
+    · exact List.mem_cons_of_mem _ h
+    · exact h
+
+theorem removeIdentitiesLoop_subset : ∀ (fuel : Nat) (gs res : List AGate) (g : AGate),
+    g ∈ removeIdentitiesLoop fuel gs res → g ∈ gs ∨ g ∈ res := by
+  intro fuel
+  induction fuel with
+  | zero => intro gs res g h; simp [removeIdentitiesLoop] at h; exact Or.inr h
+  | succ fuel ih =>
+    intro gs res g h
+    cases gs with
+    | nil => simp [removeIdentitiesLoop] at h; exact Or.inr h
+    | cons g0 rest =>
+      have step : ∀ {rest' : List AGate}, (∀ x ∈ rest', x ∈ g0 :: rest) →
+          g ∈ removeIdentitiesLoop fuel rest' (g0 :: res) → g ∈ g0 :: rest ∨ g ∈ res := by
+        intro rest' hsub h'
+        rcases ih _ _ g h' with h'' | h''
+        · exact Or.inl (hsub g h'')
+        · simp only [List.mem_cons] at h''
+          rcases h'' with rfl | h''
+          · exact Or.inl List.mem_cons_self
+          · exact Or.inr h''
+      have drop : ∀ {rest' : List AGate}, (∀ x ∈ rest', x ∈ g0 :: rest) →
+          g ∈ removeIdentitiesLoop fuel rest' (popBarrier res) → g ∈ g0 :: rest ∨ g ∈ res := by
+        intro rest' hsub h'
+        rcases ih _ _ g h' with h'' | h''
+        · exact Or.inl (hsub g h'')
+        · exact Or.inr (mem_popBarrier h'')
+      simp only [removeIdentitiesLoop] at h
+      cases rest with
+      | nil => exact step (fun x hx => by cases hx) h
+      | cons g1 rest1 =>
+        dsimp only at h
+        split at h
+        · exact drop (fun x hx => by simp [hx]) h
+        · cases rest1 with
+          | nil => exact step (fun x hx => by simp at hx; simp [hx]) h
+          | cons g2 rest2 =>
+            dsimp only at h
+            split at h
+            · exact drop (fun x hx => by simp [hx]) h
+            · exact step (fun x hx => by simp at hx; simp [hx]) h
+
+theorem removeIdentities_ok {B : String → Prop} {u : Unit} {s s' : CState}
+    (h : removeIdentities.run s = .ok (u, s')) (hg : Good s) : Step B s s' := by
+  unfold removeIdentities at h
+  obtain ⟨qc, s1, hq, h1⟩ := run_bind_ok.mp h
+  obtain ⟨rfl, rfl⟩ := getQC_run hq
+  have := modQC_run h1; subst this
+  refine Step.of_same ⟨?_, hg.comp_ok, hg.qmap_lt, hg.expq_lt, hg.anc_lt, hg.free_lt, hg.marked_lt,
+    hg.anc_nodup, hg.anc_named⟩ rfl rfl rfl
+  intro g hg'
+  have hg'' : g ∈ removeIdentitiesList s1.qc.gates.toList := by simpa using hg'
+  unfold removeIdentitiesList at hg''
+  rcases removeIdentitiesLoop_subset _ _ _ g hg'' with h' | h'
+  · exact hg.gates_ok g h'
+  · cases h'
+
+theorem uncomputeAllLoop_ok {B : String → Prop} {keep alreadyFree : List Nat} {off : Nat} :
+    ∀ (gs : List AGate) {u : Unit} {s s' : CState},
+    (uncomputeAllLoop keep alreadyFree off gs).run s = .ok (u, s') → Good s →
+    (∀ g ∈ gs, GateOK s.qc.numQubits g) → Step B s s'
+  | [], u, s, s', h, hg, _ => by
+    unfold uncomputeAllLoop at h
+    obtain ⟨_, rfl⟩ := run_pure_ok.mp h
+    exact Step.refl hg
+  | g :: gs, u, s, s', h, hg, hgs => by
+    unfold uncomputeAllLoop at h
+    dsimp only at h
+    obtain ⟨qc, s1, hq, h1⟩ := run_bind_ok.mp h
+    obtain ⟨rfl, rfl⟩ := getQC_run hq
+    have tl : ∀ g' ∈ gs, GateOK s1.qc.numQubits g' := fun g' hg' => hgs g' (List.mem_cons_of_mem _ hg')
+    rcases run_ite_ok.mp h1 with ⟨_, h1⟩ | ⟨_, h1⟩
+    · exact uncomputeAllLoop_ok gs h1 hg tl
+    · have hgok := hgs g List.mem_cons_self
+      have rest : ∀ {s2 : CState},
+          StateT.run (do
+            let b ← appendG g.cls g.wires (some (g.gid + off, g.gid))
+            if b = true then do
+              event "staleReplay"
+              uncomputeAllLoop keep alreadyFree off gs
+            else uncomputeAllLoop keep alreadyFree off gs : M Unit) s2 = .ok (u, s') →
+          Step B s1 s2 → Step B s1 s' := by
+        intro s2 h2 st2
+        obtain ⟨b, s3, happ, h3⟩ := run_bind_ok.mp h2
+        have st3 : Step B s2 s3 := (appendG_run happ).step st2.good hgok.1
+          (fun w hw => Nat.lt_of_lt_of_le (hgok.2.2.1 w hw) st2.nq_le)
+        have st23 := st2.trans st3
+        rcases run_ite_ok.mp h3 with ⟨_, h3⟩ | ⟨_, h3⟩
+        · obtain ⟨u1, s4, hev, h4⟩ := run_bind_ok.mp h3
+          have st4 := st23.trans (event_ok (B := B) hev st3.good)
+          exact st4.trans (uncomputeAllLoop_ok gs h4 st4.good (fun g' hg' => (tl g' hg').mono st4.nq_le))
+        · exact st23.trans (uncomputeAllLoop_ok gs h3 st23.good (fun g' hg' => (tl g' hg').mono st23.nq_le))
+      rcases run_ite_ok.mp h1 with ⟨hc, h1⟩ | ⟨_, h1⟩
+      · obtain ⟨u1, s2, hm, h2⟩ := run_bind_ok.mp h1
+        have := modQC_run hm; subst this
+        have hta : g.target ∈ s1.qc.anc := by simpa using hc
+        refine rest h2 (Step.of_same ⟨hg.gates_ok, hg.comp_ok, hg.qmap_lt, hg.expq_lt, hg.anc_lt, ?_,
+          hg.marked_lt, hg.anc_nodup, hg.anc_named⟩ rfl rfl rfl)
+        intro x hx
+        rcases mem_setIns hx with hx | rfl
+        · exact hg.free_lt x hx
+        · exact hg.anc_lt _ hta
+      · exact rest h1 (Step.refl hg)
+
+theorem uncomputeAll_ok {B : String → Prop} {keep : List Nat} {u : Unit} {s s' : CState}
+    (h : (uncomputeAll keep).run s = .ok (u, s')) (hg : Good s) : Step B s s' := by
+  unfold uncomputeAll at h
+  obtain ⟨qc, s1, hq, h1⟩ := run_bind_ok.mp h
+  obtain ⟨rfl, rfl⟩ := getQC_run hq
+  obtain ⟨u1, s2, hloop, hm⟩ := run_bind_ok.mp h1
+  have st1 : Step B s1 s2 := uncomputeAllLoop_ok _ hloop hg
+    (fun g hg' => hg.gates_ok g (by simpa using hg'))
+  have := modQC_run hm; subst this
+  exact st1.trans (Step.of_same (st1.good.of_eq rfl rfl rfl rfl rfl rfl rfl rfl) rfl rfl rfl)
+
+/-! ### compile -/
+
+theorem compileDefs_ok {B : String → Prop} : ∀ (defs : List (String × BExp)) {u : Unit} {s s' : CState},
+    (compileDefs defs).run s = .ok (u, s') → Good s → (∀ p ∈ defs, B p.1) →
+    Step B s s' ∧ ∀ p ∈ defs, scratchName p.1 = false → (dictGet? s'.qc.qmap p.1).isSome = true
+  | [], u, s, s', h, hg, _ => by
+    unfold compileDefs at h
+    obtain ⟨_, rfl⟩ := run_pure_ok.mp h
+    exact ⟨Step.refl hg, fun p hp => by cases hp⟩
+  | (x, e) :: rest, u, s, s', h, hg, hb => by
+    unfold compileDefs at h
+    dsimp only at h
+    have hbx : B x := hb (x, e) List.mem_cons_self
+    obtain ⟨iret, s1, he, h1⟩ := run_bind_ok.mp h
+    obtain ⟨st1, hlt⟩ := exprSpec e none (some x) he hg (by intro d hd; cases hd)
+      (by intro y hy; cases hy; exact hbx)
+    obtain ⟨u1, s2, hset, h2⟩ := run_bind_ok.mp h1
+    have st2 : Step B s1 s2 := expqSet_ok hset st1.good hlt
+    obtain ⟨u2, s3, hmap, h3⟩ := run_bind_ok.mp h2
+    obtain ⟨st3, hkey⟩ := mapQubit_ok (B := B) hmap st2.good (Nat.lt_of_lt_of_le hlt st2.nq_le) hbx
+      (by intro hp
+          have : x.startsWith "__" = true := by simpa using hp
+          simp [scratchName, this])
+    obtain ⟨unc, s4, hunc, h4⟩ := run_bind_ok.mp h3
+    have st4 : Step B s3 s4 := uncompute_ok hunc st3.good
+    obtain ⟨u3, s5, hrem, h5⟩ := run_bind_ok.mp h4
+    have st5 : Step B s4 s5 := expqRemove_ok hrem st4.good
+    obtain ⟨st6, hrest⟩ := compileDefs_ok rest h5 st5.good (fun p hp => hb p (List.mem_cons_of_mem _ hp))
+    refine ⟨((((st1.trans st2).trans st3).trans st4).trans st5).trans st6, ?_⟩
+    intro p hp hs
+    simp only [List.mem_cons] at hp
+    rcases hp with rfl | hp
+    · exact ((st4.trans st5).trans st6).keys_keep _ hs (by rw [hkey]; rfl)
+    · exact hrest p hp hs
+
+theorem addInputs_ok : ∀ (ns : List String) {u : Unit} {s s' : CState},
+    (addInputs ns).run s = .ok (u, s') → Good s →
+    Step (· ∈ ns) s s' ∧ s'.qc.numQubits = s.qc.numQubits + ns.length ∧ s'.qc.anc = s.qc.anc ∧
+      (ns.Nodup → (∀ n ∈ ns, reservedName n = false) →
+        ∀ (i : Nat) (x : String), ns[i]? = some x → dictGet? s'.qc.qmap x = some (s.qc.numQubits + i))
+  | [], u, s, s', h, hg => by
+    unfold addInputs at h
+    obtain ⟨_, rfl⟩ := run_pure_ok.mp h
+    exact ⟨Step.refl hg, rfl, rfl, fun _ _ i x hi => by simp at hi⟩
+  | n :: ns, u, s, s', h, hg => by
+    unfold addInputs at h
+    obtain ⟨u1, s1, hd, h1⟩ := run_bind_ok.mp h
+    obtain ⟨i0, hadd⟩ := run_discard_ok.mp hd
+    have hs1 := (addQubit_run hadd).2
+    obtain ⟨st1, _, _, hanc1, _⟩ := addQubit_ok (B := (· ∈ n :: ns)) hadd hg (Or.inl List.mem_cons_self)
+    obtain ⟨st2, hn2, hanc2, hpos⟩ := addInputs_ok ns h1 st1.good
+    have hn1 : s1.qc.numQubits = s.qc.numQubits + 1 := by rw [hs1]
+    refine ⟨st1.trans (st2.mono (fun x hx => List.mem_cons_of_mem _ hx)), ?_, hanc2.trans hanc1, ?_⟩
+    · rw [hn2, hn1]; simp only [List.length_cons]; omega
+    · intro hnd hres i x hi
+      have hnd' := List.nodup_cons.mp hnd
+      cases i with
+      | zero =>
+        have : n = x := by simpa using hi
+        subst this
+        rw [st2.qmap_keep n hnd'.1 (hres n List.mem_cons_self), hs1]
+        exact dictGet?_dictSet_self
+      | succ j =>
+        have := hpos hnd'.2 (fun m hm => hres m (List.mem_cons_of_mem _ hm)) j x (by simpa using hi)
+        rw [this, hn1]; congr 1; omega
+
+theorem good_init (cs : List Nat) (inputs : List String) :
+    Good { choices := cs, inputs := inputs } :=
+  ⟨by simp, by simp, by simp, by simp, by simp, by simp, by simp, by simp, by simp⟩
+
+/-- **every successful run of `compile`** ends in a state satisfying the invariant; names outside
+the definitions' left-hand sides that are not reserved keep the qubit `addInputs` gave them, and
+every non-scratch left-hand side is a key of the final `qubit_map` -/
+theorem compile_ok {inputs : List String} {defs : List (String × BExp)} {ret : Option (List String)}
+    {unc : Bool} {cs : List Nat} {s : CState}
+    (h : (compile inputs defs ret unc).run { choices := cs } = .ok ((), s)) :
+    Good s ∧ inputs.length ≤ s.qc.numQubits ∧
+    (∀ p ∈ defs, scratchName p.1 = false → (dictGet? s.qc.qmap p.1).isSome = true) ∧
+    (inputs.Nodup → (∀ n ∈ inputs, reservedName n = false ∧ n ∉ defs.map (·.1)) →
+      ∀ (i : Nat) (x : String), inputs[i]? = some x → dictGet? s.qc.qmap x = some i) := by
+  unfold compile at h
+  obtain ⟨u0, s0, hmod, h1⟩ := run_bind_ok.mp h
+  have := run_modify_ok.mp hmod; subst this
+  have hg0 : Good { choices := cs, inputs := inputs } := good_init cs inputs
+  obtain ⟨u1, s1, hin, h2⟩ := run_bind_ok.mp h1
+  obtain ⟨st1, hn1, _, hpos⟩ := addInputs_ok inputs hin hg0
+  obtain ⟨u2, s2, hdefs, h3⟩ := run_bind_ok.mp h2
+  obtain ⟨st2, hkeys⟩ := compileDefs_ok (B := (· ∈ defs.map (·.1))) defs hdefs st1.good
+    (fun p hp => List.mem_map.mpr ⟨p, hp, rfl⟩)
+  obtain ⟨u3, s3, hrem, h4⟩ := run_bind_ok.mp h3
+  have st3 : Step (· ∈ defs.map (·.1)) s2 s3 := removeIdentities_ok hrem st2.good
+  have st4 : Step (· ∈ defs.map (·.1)) s3 s := by
+    cases ret with
+    | none =>
+      obtain ⟨_, rfl⟩ := run_pure_ok.mp h4; exact Step.refl st3.good
+    | some rb =>
+      dsimp only at h4
+      rcases run_ite_ok.mp h4 with ⟨_, h4⟩ | ⟨_, h4⟩
+      · obtain ⟨qc, s4, hq, h5⟩ := run_bind_ok.mp h4
+        obtain ⟨rfl, rfl⟩ := getQC_run hq
+        exact uncomputeAll_ok h5 st3.good
+      · obtain ⟨_, rfl⟩ := run_pure_ok.mp h4; exact Step.refl st3.good
+  have st234 := (st2.trans st3).trans st4
+  have hn1' : s1.qc.numQubits = inputs.length := by rw [hn1]; simp
+  refine ⟨st4.good, by rw [← hn1']; exact st234.nq_le, ?_, ?_⟩
+  · intro p hp hs
+    exact (st3.trans st4).keys_keep _ hs (hkeys p hp hs)
+  · intro hnd hres i x hi
+    have hx := hres x (List.mem_of_getElem? hi)
+    rw [st234.qmap_keep _ hx.2 hx.1, hpos hnd (fun n hn => (hres n hn).1) i x hi]
+    simp
+
 end QV.Compiler
